@@ -50,6 +50,7 @@ func Run(c *engine.Ctx) {
 		}
 	}
 	attrCube(c)
+	nearVersions(c)
 	sameRuleAsUnion(c)
 }
 
@@ -182,6 +183,71 @@ func pairCase(t *engine.T, A, B gen.ListSpec) *engine.Violation {
 		t.NonTrivial()
 	}
 	return nil
+}
+
+
+// nearVersions: the two operands hold versions of the shared node that are one single-field deviation
+// apart - reorderings of set-valued lists and sub-second date changes (which the library's own
+// equality cannot see) included. The precedence rule is judged field by field on exact snapshots.
+func nearVersions(c *engine.Ctx) {
+	c.Group("attr-near-versions")
+	fds := gen.FieldsExcept(&sbom.Node{}, "id", "type")
+	base := func() *sbom.Node {
+		n := &sbom.Node{}
+		gen.Full(n, "S", 3)
+		n.Id = "shared"
+		return n
+	}
+	devs := gen.Deviations(base(), 2)
+	c.Bound("attr-near-versions", fmt.Sprintf("shared node with every field set (3-element lists); %d single-field deviations (nested to depth 2; content changes, reorderings, sub-second) applied to the first or to the second operand's version", len(devs)))
+	for di := range devs {
+		for side := 0; side < 2; side++ {
+			di, side := di, side
+			c.Case(func() any { return map[string]any{"deviation": devs[di].Label, "kind": devs[di].Kind, "deviated-operand": []string{"first", "second"}[side]} }, func(t *engine.T) *engine.Violation {
+				mk := func() (*sbom.NodeList, *sbom.NodeList) {
+					na, nb := base(), base()
+					if side == 0 {
+						devs[di].Mutate(na.ProtoReflect())
+					} else {
+						devs[di].Mutate(nb.ProtoReflect())
+					}
+					na.Id, nb.Id = "shared", "shared"
+					return &sbom.NodeList{Nodes: []*sbom.Node{{Id: "other-a"}, na}, RootElements: []string{"shared"}}, &sbom.NodeList{Nodes: []*sbom.Node{nb, {Id: "other-b"}}}
+				}
+				A, B := mk()
+				na, nb := A.Nodes[1], B.Nodes[0]
+				if na.Id != "shared" || nb.Id != "shared" {
+					t.Outcome("near:key-deviation-skipped")
+					return nil
+				}
+				pick := func(first, second string) string {
+					if second != "" {
+						return second
+					}
+					return first
+				}
+				want := map[string]string{}
+				for _, fd := range fds {
+					want[string(fd.Name())] = pick(gen.FieldSnap(na, fd), gen.FieldSnap(nb, fd))
+				}
+				x := A.Intersect(B)
+				t.Transitions(1)
+				t.Validated(1)
+				xn := x.GetNodeByID("shared")
+				if xn == nil || len(x.Nodes) != 1 {
+					return engine.Violate("intersect-nodes", "cube", "intersection should hold exactly the shared node")
+				}
+				for _, fd := range fds {
+					if got := gen.FieldSnap(xn, fd); got != want[string(fd.Name())] {
+						return engine.Violate("intersect-precedence", "", "field %s: intersection has %q, want %q (second operand wins when non-empty)", fd.Name(), got, want[string(fd.Name())])
+					}
+				}
+				t.State(fmt.Sprintf("near:%s:%d", devs[di].Label, side))
+				t.Outcome("near:" + devs[di].Kind)
+				return nil
+			})
+		}
+	}
 }
 
 func attrCube(c *engine.Ctx) {
